@@ -784,6 +784,19 @@ func checkFloater(c floaterCase, o *kit.Obs) error {
 	if err := b.unchanged(); err != nil {
 		return err
 	}
+	// the boundary map is an argument, not a result: the call must leave it as it was (a caller that parameterises
+	// the same disc again, e.g. with other weights, passes it a second time)
+	if res == bm {
+		return fmt.Errorf("the parameterisation returned is the caller's boundary map itself")
+	}
+	if bm.Len() != len(s.loop) {
+		return fmt.Errorf("the caller's boundary map had %d entries (the boundary vertices) before the call and has %d after it", len(s.loop), bm.Len())
+	}
+	for _, vi := range s.loop {
+		if p, ok := uvOf(bm, s.verts[vi]); !ok || p != prescribed[vi] {
+			return fmt.Errorf("the caller's boundary map was changed by the call: vertex %v had %v, now %v (present=%v)", s.verts[vi], prescribed[vi], p, ok)
+		}
+	}
 	if res.Len() != len(s.verts) {
 		return fmt.Errorf("the parameterisation has %d entries for %d vertices", res.Len(), len(s.verts))
 	}
